@@ -476,3 +476,135 @@ def twin_case(rng):
         calls.append([which] + slices(rng, (a, b)[which], 1)[0])
     return {"kind": "seqtwin", "a": a, "b": b, "how": how, "basename": rng.choice(["genome.fa", "ref.fasta", "dm6.fa", "seq"]),
             "calls": calls, "origin": rng.choice(["line", "ctor"])}
+
+
+# --- duplicated block records; thick / thin children reaching past the transcript ------------------------------------
+def _pick_transcript(rng, idx, fmt, want):
+    for _ in range(200):
+        t = transcript(rng, idx, fmt)
+        if want(t):
+            return t
+    raise AssertionError("generator: no suitable transcript in 200 draws")
+
+
+def add_duplicates(rng, t):
+    """Repeats 1-2 exon records (and sometimes a CDS record) of t once or twice.  'identical': every copy (the original
+    included) carries no ID of its own, so the lines are byte-identical and the database keeps them under generated
+    keys (exon_1, exon_2); 'distinct': the copies have equal coordinates but each its own ID (GTF: exon_id)."""
+    kids = t["children"]
+    exons = [c for c in kids if c["type"] in ("exon", "noncoding_exon")]
+    picks = rng.sample(exons, min(len(exons), rng.choice([1, 1, 2])))
+    if rng.random() < 0.4:
+        cds = [c for c in kids if c["type"] == "CDS"]
+        if cds:
+            picks.append(rng.choice(cds))
+    serial = 0
+    modes = []
+    for c in picks:
+        mode = "identical" if rng.random() < 0.65 else "distinct"
+        modes.append(mode)
+        copies = [c] + [dict(c) for _ in range(rng.choice([1, 1, 2]))]
+        for x in copies:
+            serial += 1
+            x["id"] = None if mode == "identical" else "%s.d%d" % (t["id"], serial)
+        kids.extend(copies[1:])
+    rng.shuffle(kids)
+    t["dups"] = sorted(set(modes))
+    return t
+
+
+def dup_case(rng, fmt):
+    """bed12 / to_bed12 for transcripts some of whose block (and thick) records are written twice or three times."""
+    ts, calls = [], []
+    for i in range(rng.randrange(1, 4)):
+        t = _pick_transcript(rng, i, fmt, lambda t: any(c["type"] in ("exon", "noncoding_exon") for c in t["children"]))
+        t["seqid"] = t["seqid"] or ts[3 * (i // 3)]["seqid"]
+        ts.append(add_duplicates(rng, t))
+        for _ in range(rng.randrange(1, 4)):
+            c = call(rng, t, fmt)
+            c["t"] = i
+            if rng.random() < 0.5:
+                c["block"] = rng.choice([["exon", "noncoding_exon"], ["exon", "noncoding_exon"], "exon", ["exon"]])
+                if M.ambiguous_order(t["children"], c["block"]):
+                    c["block"] = ["exon", "noncoding_exon"]
+            if not M.select(t["children"], c["block"]):
+                c["as"] = "feature"
+            calls.append(c)
+    return {"kind": "bed12", "fmt": fmt, "transcripts": ts, "calls": calls, "dup": True,
+            "shuffle_seed": rng.randrange(1 << 30) if rng.random() < 0.5 else None}
+
+
+def reach_past(rng, t):
+    """Lets the coding part and / or the UTRs of a transcript whose exons span it exactly reach past its start, its end
+    or both (a CDS continuing beyond the last annotated exon, a UTR record longer than the transcript record)."""
+    kids = t["children"]
+    cds = sorted([c for c in kids if c["type"] == "CDS"], key=lambda c: c["start"])
+    left, right = ("five_prime_UTR", "three_prime_UTR") if t["strand"] == "+" else ("three_prime_UTR", "five_prime_UTR")
+    sides = rng.choice([["start"], ["end"], ["start", "end"], ["start", "end"]])
+    if t["start"] <= 2:
+        sides = ["end"]
+    what = rng.choice(["CDS", "CDS", "CDS+UTR", "UTR"])
+    done = []
+    if "start" in sides:
+        lo = t["start"]
+        if "CDS" in what:
+            cds[0]["start"] = lo = max(1, t["start"] - rng.choice([1, 1, 2, 10, 50, 300]))
+            done.append("CDS start")
+        if "UTR" in what and lo > 1:
+            # the UTR lies before the coding part and starts before the transcript
+            s = max(1, lo - rng.choice([1, 2, 10, 50]))
+            old = [c for c in kids if c["type"] == left and c["start"] == t["start"]] if "CDS" not in what else []
+            if old:
+                old[0]["start"] = s
+            else:
+                kids.append({"type": left, "start": s, "end": lo - 1})
+            done.append("UTR start")
+    if "end" in sides:
+        hi = t["end"]
+        if "CDS" in what:
+            old_end = cds[-1]["end"]
+            cds[-1]["end"] = hi = t["end"] + rng.choice([1, 1, 2, 10, 50, 300])
+            for c in kids:
+                if c["type"] == "stop_codon" and c["end"] == old_end:
+                    c["start"], c["end"] = hi - 2, hi  # the stop codon stays the end of the coding part
+            done.append("CDS end")
+        if "UTR" in what:
+            e = hi + rng.choice([1, 2, 10, 50])
+            old = [c for c in kids if c["type"] == right and c["end"] == t["end"] and "CDS" not in what]
+            if old:
+                old[0]["end"] = e
+            else:
+                kids.append({"type": right, "start": hi + 1, "end": e})
+            done.append("UTR end")
+    rng.shuffle(kids)
+    t["reach"] = done
+    return t
+
+
+REACH_THICK = [(["CDS"], None), ("CDS", None), (["CDS"], None), (["CDS", "stop_codon"], None),
+               (None, ["five_prime_UTR", "three_prime_UTR"]), (None, "five_prime_UTR"), (None, "three_prime_UTR")]
+
+
+def reach_case(rng, fmt):
+    """bed12 for transcripts whose exons span them exactly while CDS / UTR records reach past the transcript."""
+    ts, calls = [], []
+    for i in range(rng.randrange(1, 4)):
+        t = _pick_transcript(rng, i, fmt, lambda t: t["shape"] == "spanning" and any(c["type"] == "CDS" for c in t["children"])
+                             and any(c["type"] in ("exon", "noncoding_exon") for c in t["children"]))
+        t["seqid"] = t["seqid"] or ts[3 * (i // 3)]["seqid"]
+        ts.append(reach_past(rng, t))
+        for _ in range(rng.randrange(1, 4)):
+            c = call(rng, t, fmt)
+            c["t"] = i
+            c["block"] = rng.choice([["exon", "noncoding_exon"], ["exon", "noncoding_exon"], "exon", ["exon"]])
+            if fmt == "gtf":
+                c["block"] = rng.choice(["exon", ["exon"]])
+            thick, thin = rng.choice(REACH_THICK)
+            if thick and (M.ambiguous_order(t["children"], thick) or M.overlapping(t["children"], thick) and "stop_codon" not in thick):
+                thick, thin = ["CDS"], None
+            c["thick"], c["thin"] = thick, thin
+            if not M.select(t["children"], c["block"]):
+                c["as"] = "feature"
+            calls.append(c)
+    return {"kind": "bed12", "fmt": fmt, "transcripts": ts, "calls": calls, "reach": True,
+            "shuffle_seed": rng.randrange(1 << 30) if rng.random() < 0.3 else None}
